@@ -300,15 +300,18 @@ TWO_DOCS = ["{ a }", "{ item }", "{ thing }", "{ a { id } }", "{ item { id } }",
 TWO_VALID = [(True, False), (True, False), (True, False), (False, True), (False, True), (True, False), (False, True)]
 
 
-@obligation(tier="quick", timeout=200, samples=[{"d1": 0, "d2": 0, "first_leaf": True}, {"d1": 4, "d2": 1, "first_leaf": False}],
-            selectors=["d1: document sent first to one engine", "d2: document then sent to the OTHER engine", "first_leaf: which engine goes first"],
+@obligation(tier="quick", timeout=60, shards=[{"d1": a, "d2": b, "first_leaf": f} for a in range(len(TWO_DOCS)) for b in range(len(TWO_DOCS)) for f in (True, False)],
+            samples=[{"k": 0}],
+            selectors=["shard: document sent first to one engine, document then sent to the OTHER engine, which engine goes first (one fresh process per case: "
+                       "process-wide validator state must not be polluted by other exploration paths)", "k: unused"],
             bounds="7 documents x 7 documents x 2 orders over two schemas whose Query fields have the same names but leaf vs composite / scalar vs input-object types",
             note="a document invalid for the engine's own schema is refused (nothing runs) even when another schema in the process, for which it is valid, validated it first; and vice versa")
-def c07_two_schemas(d1: int, d2: int, first_leaf: bool) -> bool:
+def c07_two_schemas(k: int) -> bool:
     """
     post: _
     """
-    d1 = pick(d1, len(TWO_DOCS)); d2 = pick(d2, len(TWO_DOCS)); first_leaf = pickb(first_leaf)
+    sh = shard()
+    d1, d2, first_leaf = sh["d1"], sh["d2"], sh["first_leaf"]
     order = [(ENG_LEAF, 0, d1), (ENG_COMP, 1, d2)] if first_leaf else [(ENG_COMP, 1, d1), (ENG_LEAF, 0, d2)]
     for eng, which, d in order:
         del TWO_LOG[:]
